@@ -34,7 +34,7 @@ RULE = ("Timelines {cold start with refusal chain, connect latency 3 s, handshak
 ASSUMPTIONS = ["shutdown()/close() is called once, by one task; the caller's own pending init() "
                "(its wait_for timer) is not counted in the census until it has returned",
                "thorough: exhaustive over loop iterations of the listed timelines only"]
-REQUIRED_OBS = ["lives_judged", "shutdown_instants_judged", "during_backoff", "during_handshake",
+REQUIRED_OBS = ["shutdown_from_cancelled_task", "lives_judged", "shutdown_instants_judged", "during_backoff", "during_handshake",
                 "during_connect_in_flight", "steady_state", "reinit_ok", "socket_level"]
 SOAK = True   # also judged by the whole-run monitors of the soak sessions (vf/soak.py)
 BUDGET = {"quick": 110, "thorough": 1500}
@@ -191,7 +191,8 @@ async def drive(tl, gen, loop, net, log, ctx):
         await asyncio.sleep(8.0)
 
 
-def run_once(gen, tl, trigger, reinit=False, pending=4, double=False, idle=1000.0):
+def run_once(gen, tl, trigger, reinit=False, pending=4, double=False, idle=1000.0,
+             via_cancel=False):
     """trigger: None (reference run) | ('iter', k) | ('time', t)."""
     out = {"fired": False}
 
@@ -219,6 +220,10 @@ def run_once(gen, tl, trigger, reinit=False, pending=4, double=False, idle=1000.
                     out["nothing_to_shut"] = True
             except Exception as e:
                 out["sd_exc"] = repr(e)
+            except asyncio.CancelledError as e:
+                # (via_cancel: this task's own cancellation was delivered before the finally
+                # block started; a CancelledError coming out of shutdown() is not it)
+                out["sd_exc"] = repr(e)
             log.add("API.ret", name="shutdown")
             out["sd_ret_t"] = loop.time()
             out["mark"] = log.mark()
@@ -238,9 +243,26 @@ def run_once(gen, tl, trigger, reinit=False, pending=4, double=False, idle=1000.
             out["now_tasks"], out["now_timers"], out["now_unknown"] = H.client_census(loop, hs)
             sd_done.set()
 
+        async def app_task():
+            # an application task whose clean-up shuts the client down: it is cancelled at the
+            # trigger instant (try/finally, or the body of an expired asyncio.timeout())
+            try:
+                await asyncio.sleep(1e9)
+            finally:
+                await do_shutdown()
+
+        app = None
+        if via_cancel and trigger is not None:
+            app = loop.create_task(app_task())
+            mine.add(app)
+
         def fire():
             out["fired"] = True
-            mine.add(loop.create_task(do_shutdown()))
+            if app is not None:
+                app.cancel()
+                out["via_cancel"] = True
+            else:
+                mine.add(loop.create_task(do_shutdown()))
 
         if trigger is not None:
             if trigger[0] == "iter":
@@ -395,7 +417,9 @@ def cases(tier, seed):
                 # anything the old life still held to be unexpired)
                 yield {"gen": gen, "tl": tl, "trigs": trigs[i:i + 12],
                        "reinit": (i // 12) % 3 != 1, "double": (i // 12) % 4 == 3,
-                       "idle": 1000.0 if (i // 12) % 2 else 0.5}
+                       "idle": 1000.0 if (i // 12) % 2 else 0.5,
+                       # shutdown awaited from the clean-up of a cancelled application task
+                       "via_cancel": (i // 12) % 5 == 2}
         if tier == "thorough":
             for pending in (1, 2, 7, 10):
                 K, times = reference(gen, "sock_pending")
@@ -496,6 +520,8 @@ def judge(gen, tl, trig, o, reinit):
         else:
             obs["reinit_ok"] = 1
     obs["shutdown_instants_judged"] = 1
+    if o.get("via_cancel"):
+        obs["shutdown_from_cancelled_task"] = 1
     log = o["log"]
     t = o["sd_start_t"]
     if tl in ("backoff", "sock_backoff", "cold_refuse", "sock_pending"):
@@ -547,9 +573,9 @@ def run_cycles(case):
             ac.subscribe(sub)
             st = w.console.inst["acs"][0]["status"]
             if gen == 4:
-                st["set_point"] = (st["set_point"] + 1 + k) % 40
+                st["set_point"] = 20 if st["set_point"] != 20 else 21
             else:
-                st["sp_raw"] = (st["sp_raw"] + 10 * (k + 1)) % 250
+                st["sp_raw"] = 120 if st["sp_raw"] != 120 else 130
             w.console.send(net.current(), w.console.frame_ac_status())
             await quiesce(loop)
             if len(sub.calls) != 1:
@@ -590,7 +616,8 @@ def run_case(case):
     dec = 0
     for trig in case["trigs"]:
         o = run_once(gen, tl, tuple(trig), case["reinit"], case.get("pending", 4),
-                     case.get("double", False), case.get("idle", 1000.0))
+                     case.get("double", False), case.get("idle", 1000.0),
+                     case.get("via_cancel", False))
         vv, oo = judge(gen, tl, trig, o, case["reinit"])
         viol += vv
         for k, n in oo.items():
